@@ -546,10 +546,12 @@ def _straight_line(fn):
     body = [st for st in fn.body if not (isinstance(st, ast.Expr) and isinstance(st.value, ast.Constant))]
     if not body or not isinstance(body[-1], ast.Return) or body[-1].value is None:
         return None
+    # branches, loops and raises may be part of the body as long as the one `return` is its last statement
     for st in body[:-1]:
-        if not isinstance(st, (ast.Assign, ast.AugAssign, ast.Expr)):
+        if not isinstance(st, (ast.Assign, ast.AugAssign, ast.AnnAssign, ast.Expr, ast.If, ast.For, ast.While, ast.Raise, ast.Assert, ast.Pass)):
             return None
-    if any(isinstance(n, (ast.Return, ast.Yield, ast.Lambda, ast.FunctionDef)) for st in body[:-1] for n in ast.walk(st)):
+    if any(isinstance(n, (ast.Return, ast.Yield, ast.YieldFrom, ast.Lambda, ast.FunctionDef, ast.Global, ast.Nonlocal, ast.Try, ast.With))
+           for st in body[:-1] for n in ast.walk(st)):
         return None
     return body
 
@@ -577,6 +579,8 @@ def inline_new_helpers(prog, f: Func):
         body = _straight_line(callee.node)
         if body is None:
             return [st]
+        if any('jit' not in ast.unparse(d) for d in callee.node.decorator_list):
+            return [st]         # a decorator other than numba's changes what a call does (memoisation, ...): keep the call
         counter[0] += 1
         suf = f"__inl{counter[0]}"
         a = callee.node.args
